@@ -31,17 +31,21 @@ type Ext struct {
 	SlowSec map[string]int    `json:"slow"`     // target id -> extra sleep seconds (for timeouts)
 	SkipOut map[string]int    `json:"skip_out"` // target id -> index of the file output the command does not produce
 	NoEstab map[string]bool   `json:"no_establish"`
+	// WrongEst: marker id -> the command writes content the check rejects
+	WrongEst map[string]bool `json:"wrong_establish"`
+	// SelfKill: target id -> the command's shell dies from a SIGKILL it sends itself
+	SelfKill map[string]bool `json:"self_kill"`
 }
 
 func NewExt() Ext {
-	return Ext{Markers: map[string]string{}, Fail: map[string]bool{}, SlowSec: map[string]int{}, SkipOut: map[string]int{}, NoEstab: map[string]bool{}}
+	return Ext{Markers: map[string]string{}, Fail: map[string]bool{}, SlowSec: map[string]int{}, SkipOut: map[string]int{}, NoEstab: map[string]bool{}, WrongEst: map[string]bool{}, SelfKill: map[string]bool{}}
 }
 
 type Model struct {
 	Cache  map[string]string // abstract key (strict and loose) -> "good" | "may"
 	Taint  map[string]bool   // label
 	Ext    Ext
-	Faulty bool // cache faults were injected: every entry is "may" until rewritten
+	Faulty bool // cache faults were injected at some point of this history
 	// LastMode: how each target was last executed: "c" (result cached) or "nc" (no-cache tag / cache disabled).
 	LastMode map[string]string
 	// EntryDepModes: for each strict key, the LastMode of every direct dependency when the entry was written.
@@ -62,6 +66,7 @@ type Prediction struct {
 	// ModeSwitch: a direct dependency is (re-)executed in this build in a different cache mode (cached <-> no-cache /
 	// cache disabled) than when the target's entry was written. Known finding C13:dependants-rebuilt-after-cache-mode-switch.
 	ModeSwitch map[string]bool
+	Faulted    bool // cache faults were injected earlier in this history (the "absent cache faults" clauses do not apply)
 	AnyFail    bool // some MUST target fails => exit != 0 (exact when there is no May in play)
 	Uncertain  bool // verdicts contain May for reasons that make the exit status unknowable
 }
@@ -122,12 +127,17 @@ func executionFails(t *Target, ext Ext) (fails bool, markers map[string]string) 
 			}
 		}
 	}
-	if ext.Fail[id] {
+	if ext.SelfKill[id] || ext.Fail[id] {
 		return true, markers
 	}
 	// the command runs to completion: markers are established
 	for _, c := range t.Checks {
-		if c.Establish && !ext.NoEstab[c.Marker] {
+		if c.Establish && ext.WrongEst[c.Marker] {
+			markers[c.Marker] = "not-what-the-check-wants"
+			if c.Expected == "" {
+				// an existence check is satisfied by any content
+			}
+		} else if c.Establish && !ext.NoEstab[c.Marker] {
 			content := c.Expected
 			if content == "" {
 				content = "ok"
@@ -157,6 +167,7 @@ func executionFails(t *Target, ext Ext) (fails bool, markers map[string]string) 
 func (m *Model) Predict(w WS, o BuildOpts) Prediction {
 	p := Prediction{Verdict: map[string]Verdict{}, WillFail: map[string]bool{}, ChecksBad: map[string]bool{}, ModeSwitch: map[string]bool{}}
 	p.Keys, p.Loose = w.Keys()
+	p.Faulted = m.Faulty
 	p.Selected = Select(w, o.Patterns)
 	willRunMode := map[string]string{} // targets that certainly or possibly execute in this build -> their mode
 	failed := map[string]bool{}        // failed or skipped
@@ -193,9 +204,6 @@ func (m *Model) Predict(w WS, o BuildOpts) Prediction {
 		p.ChecksBad[l] = checksBad
 		forced := o.NoCache || t.NoCache() || m.Taint[l] || checksBad
 		entry := m.Cache[p.Keys[l]]
-		if m.Faulty && entry == "good" {
-			entry = "may"
-		}
 		var v Verdict
 		switch {
 		case forced:
@@ -210,6 +218,10 @@ func (m *Model) Predict(w WS, o BuildOpts) Prediction {
 		if v == MustNot {
 			for _, d := range w.DirectDeps(t) {
 				if mode, runs := willRunMode[d]; runs && m.EntryDepModes[p.Keys[l]][d] != "" && m.EntryDepModes[p.Keys[l]][d] != mode {
+					p.ModeSwitch[l] = true
+				}
+				// ... or was executed in the other mode since (its entry was overwritten with the other formula)
+				if was := m.EntryDepModes[p.Keys[l]][d]; was != "" && m.LastMode[d] != "" && m.LastMode[d] != was {
 					p.ModeSwitch[l] = true
 				}
 				// an output-less dependency exposes its own change hash, so the effect travels through it
@@ -228,6 +240,7 @@ func (m *Model) Predict(w WS, o BuildOpts) Prediction {
 		if maybeBlocked {
 			v = May
 			p.Uncertain = true
+			maybeFailed[l] = true // possibly skipped: its own dependants inherit the doubt
 		}
 		p.Verdict[l] = v
 		fails, established := executionFails(t, ext)
@@ -247,6 +260,12 @@ func (m *Model) Predict(w WS, o BuildOpts) Prediction {
 				p.Uncertain = true
 			}
 			if len(established) > 0 {
+				p.Uncertain = true
+			}
+		case MustNot:
+			if p.ModeSwitch[l] && (fails || len(established) > 0) {
+				// known finding: it may run after all; whether the build then fails is not predictable
+				maybeFailed[l] = fails
 				p.Uncertain = true
 			}
 		}
@@ -284,6 +303,17 @@ func (m *Model) Commit(w WS, o BuildOpts, p Prediction, started, ended map[strin
 			}
 		case fails || !ended[l]:
 			// failed executions record nothing; an existing entry for this key stays as it was
+		case p.Verdict[l] == May || p.ModeSwitch[l] || depUncertain(w, t, p):
+			// it ran, but the model does not know through which path (own node, or re-run on behalf of a
+			// dependant under load_outputs=minimal with a change hash derived from an older dependency state)
+			m.Cache[k] = "may"
+			m.Cache[p.Loose[l]] = "may"
+			if o.NoCache || t.NoCache() {
+				m.LastMode[l] = "nc"
+			} else {
+				m.LastMode[l] = "c"
+			}
+			delete(m.Taint, l)
 		case o.NoCache || t.NoCache():
 			m.Cache[k] = "may"
 			m.Cache[p.Loose[l]] = "may"
@@ -303,6 +333,27 @@ func (m *Model) Commit(w WS, o BuildOpts, p Prediction, started, ended map[strin
 	}
 	if cancelled {
 		return
+	}
+}
+
+// depUncertain: a direct dependency was used from (or re-run on top of) an entry of unknown provenance, so the
+// change hash under which t's own result was stored is unknown too.
+func depUncertain(w WS, t *Target, p Prediction) bool {
+	for _, d := range w.DirectDeps(t) {
+		if p.Verdict[d] == May || p.ModeSwitch[d] {
+			return true
+		}
+	}
+	return false
+}
+
+// CacheFault records that cache objects were destroyed behind grog's back: every entry may or may not be usable.
+func (m *Model) CacheFault() {
+	m.Faulty = true
+	for k, v := range m.Cache {
+		if v == "good" {
+			m.Cache[k] = "may"
+		}
 	}
 }
 
